@@ -26,6 +26,7 @@ func init() {
 			{ID: "C19.R6", Floor: 1, Doc: "getTimestamp counts 100 ns ticks from seconds and nanoseconds separately (no UnixNano, which wraps outside 1678..2262)", Run: c19r6},
 			{ID: "C19.R7", Floor: 4, Doc: "MinTimeUUID / MaxTimeUUID use the extreme clock and node bytes under Cassandra's signed byte order", Run: c19r7},
 			{ID: "C19.R8", Floor: 1, Doc: "UUID.Time splits the tick count into seconds and the sub-second part before building the time (no nanosecond count in an int64, which only spans 1678..2262)", Run: c19r8},
+			{ID: "C19.R9", Floor: 1, Doc: "(UUID).Time returns the zero time only where the version is known not to be 1", Run: c19r9},
 		},
 	})
 }
